@@ -160,7 +160,8 @@ def inline_calls(body, pick, crate, max_rounds=24, sub=None, max_blocks=3000):
 #     loop { match it.next() { None => break <all: true | any: false>,
 #                              Some(x) => if <all: !P(x) | any: P(x)> { break <all: false | any: true> } } }
 # with the closure body inlined, so that rules written for `for` loops see the same shape (documented std semantics).
-ADAPTORS = {'std::iter::Iterator::all': 'all', 'std::iter::Iterator::any': 'any'}
+ADAPTORS = {'std::iter::Iterator::all': 'all', 'std::iter::Iterator::any': 'any', 'std::iter::Iterator::find': 'find'}
+#     it.find(|x| P(x))  ==  loop { match it.next() { None => break None, Some(x) => if P(&x) { break Some(x) } } }
 
 
 def _closure_of(body, local):
@@ -224,21 +225,43 @@ def desugar_once(body, bi, cb, kind):
                             'args': [{'move': {'l': it_ref, 'p': []}}], 'dest': {'l': opt, 'p': []}, 'target': n_sw, 'unwind': None}))
     j['blocks'].append(blk([assign(disc, {'k': 'discr', 'place': {'l': opt, 'p': []}})],
                            {'k': 'switch', 'discr': {'move': {'l': disc, 'p': []}}, 'targets': [['0', n_end], ['1', n_call]], 'otherwise': n_end}))
-    some0 = {'l': opt, 'p': [{'down': 1, 'name': 'Some'}, {'f': 0, 'name': '0', 'ty': item_ty}]}
-    j['blocks'].append(blk([assign(item, {'k': 'use', 'op': {'move': some0}}),
-                            assign(env, {'k': 'ref', 'mut': env_ty.startswith('&mut'), 'place': {'l': clo_local, 'p': []}})],
+    if kind == 'find':
+        # the predicate takes the element by reference; the element itself is what find returns
+        elem_ty = item_ty[1:].lstrip() if item_ty.startswith('&') else item_ty
+        for pre in ("'_ ", 'mut '):
+            if elem_ty.startswith(pre):
+                elem_ty = elem_ty[len(pre):]
+        j['locals'][item]['ty'] = elem_ty
+        j['locals'][opt]['ty'] = 'std::option::Option<%s>' % elem_ty
+        item_ref = new_local(item_ty)
+    some0 = {'l': opt, 'p': [{'down': 1, 'name': 'Some'}, {'f': 0, 'name': '0', 'ty': j['locals'][item]['ty']}]}
+    call_stmts = [assign(item, {'k': 'use', 'op': {'move': some0}}),
+                  assign(env, {'k': 'ref', 'mut': env_ty.startswith('&mut'), 'place': {'l': clo_local, 'p': []}})]
+    arg2 = {'move': {'l': item, 'p': []}}
+    if kind == 'find':
+        call_stmts.append(assign(item_ref, {'k': 'ref', 'mut': False, 'place': {'l': item, 'p': []}}))
+        arg2 = {'move': {'l': item_ref, 'p': []}}
+    j['blocks'].append(blk(call_stmts,
                            {'k': 'call', 'func': {'path': cb.path, 'full': cb.path, 'name': 'call', 'gargs': []},
-                            'args': [{'move': {'l': env, 'p': []}}, {'move': {'l': item, 'p': []}}],
+                            'args': [{'move': {'l': env, 'p': []}}, arg2],
                             'dest': {'l': r, 'p': []}, 'target': n_test, 'unwind': None}))
     if kind == 'all':
         sw = {'k': 'switch', 'discr': {'move': {'l': r, 'p': []}}, 'targets': [['0', n_short]], 'otherwise': n_next}
     else:
         sw = {'k': 'switch', 'discr': {'move': {'l': r, 'p': []}}, 'targets': [['0', n_next]], 'otherwise': n_short}
     j['blocks'].append(blk([], sw))
-    j['blocks'].append(blk([{'k': 'assign', 'place': dest, 'rv': {'k': 'use', 'op': cbool(kind == 'all')}, 'span': span}],
-                           {'k': 'goto', 'target': target}))
-    j['blocks'].append(blk([{'k': 'assign', 'place': dest, 'rv': {'k': 'use', 'op': cbool(kind != 'all')}, 'span': span}],
-                           {'k': 'goto', 'target': target}))
+    if kind == 'find':
+        def opt_agg(variant, fields):
+            return {'k': 'agg', 'agg': 'adt', 'adt': 'std::option::Option', 'variant': 1 if variant == 'Some' else 0,
+                    'variant_name': variant, 'field_names': ['0'] if fields else [], 'fields': fields}
+        j['blocks'].append(blk([{'k': 'assign', 'place': dest, 'rv': opt_agg('None', []), 'span': span}], {'k': 'goto', 'target': target}))
+        j['blocks'].append(blk([{'k': 'assign', 'place': dest, 'rv': opt_agg('Some', [{'move': {'l': item, 'p': []}}]), 'span': span}],
+                               {'k': 'goto', 'target': target}))
+    else:
+        j['blocks'].append(blk([{'k': 'assign', 'place': dest, 'rv': {'k': 'use', 'op': cbool(kind == 'all')}, 'span': span}],
+                               {'k': 'goto', 'target': target}))
+        j['blocks'].append(blk([{'k': 'assign', 'place': dest, 'rv': {'k': 'use', 'op': cbool(kind != 'all')}, 'span': span}],
+                               {'k': 'goto', 'target': target}))
     nb = Body(j, body.crate)
     return inline_once(nb, n_call, cb)
 
@@ -566,4 +589,55 @@ def fold_constant_switches(body, known=(), rounds=6):
             j['blocks'][b]['stmts'] = []
             j['blocks'][b]['term'] = {'k': 'unreachable'}
         cur = Body(j, body.crate)
+    return cur
+
+
+# ---------------------------------------------------------------------------------------------------------------------
+# Jump threading: a block that does nothing but switch on the discriminant of X, entered from a predecessor that has just
+# assigned a known variant to X, is bypassed from that predecessor (the decided edge is taken directly).  Removes the
+# infeasible paths a materialised Option/Result introduces (`let r = it.find(..); if let Some(x) = r {..}` after find has
+# been written as a loop; `let v = if c {Some(a)} else {None}; match v {..}`).
+def thread_jumps(body, rounds=4):
+    cur = body
+    did_any = False
+    for _ in range(rounds):
+        j = None
+        blocks = cur.blocks
+        preds = cur.preds()
+        for J, blk in enumerate(blocks):
+            if blk['cleanup'] or blk['term']['k'] != 'switch':
+                continue
+            stmts = [s for s in blk['stmts'] if s['k'] == 'assign']
+            if len(stmts) != 1 or stmts[0]['rv']['k'] != 'discr' or stmts[0]['place']['p']:
+                continue
+            d = blk['term']['discr'].get('move') or blk['term']['discr'].get('copy')
+            if d is None or d['p'] or d['l'] != stmts[0]['place']['l']:
+                continue
+            xp = stmts[0]['rv']['place']
+            if xp['p']:
+                continue
+            X = xp['l']
+            tm = {str(v): tg for v, tg in blk['term']['targets']}
+            for P in preds.get(J, []):
+                pb = blocks[P]
+                if pb['cleanup'] or pb['term']['k'] != 'goto' or pb['term']['target'] != J:
+                    continue
+                last = None
+                for s in pb['stmts']:
+                    if s['k'] == 'assign' and s['place']['l'] == X:
+                        last = s if not s['place']['p'] else None
+                if last is None or last['rv']['k'] != 'agg' or last['rv'].get('agg') != 'adt' or 'variant' not in last['rv']:
+                    continue
+                v = str(last['rv']['variant'])
+                tgt = tm.get(v, blk['term']['otherwise'])
+                if j is None:
+                    j = copy.deepcopy(cur.j)
+                j['blocks'][P]['stmts'] = j['blocks'][P]['stmts'] + [copy.deepcopy(stmts[0])]
+                j['blocks'][P]['term'] = {'k': 'goto', 'target': tgt}
+        if j is None:
+            break
+        cur = Body(j, body.crate)
+        did_any = True
+    if did_any:
+        cur.inlined_from = set(getattr(body, 'inlined_from', set())) | {'jump-threading:%s' % body.path}
     return cur
